@@ -19,6 +19,8 @@ def enum_plans(tier):
     from .c09_plan import _cer
     from .c09_plan import two_ready_prefix
     return [dict(cfg="A", depth=9 if th else 8, maxtime=9 if th else 8, alpha=["cerok", "dwa"], maxconn=1),
+            # a DWA is a DWA whatever result it carries
+            dict(cfg="A", depth=9 if th else 8, maxtime=9 if th else 8, alpha=["cerok", "dwae"], maxconn=1),
             # two ready connections: one keeps the node busy (traffic every second, select() never times out) while the other idles
             dict(cfg="HOLD2", depth=8 if th else 6, maxtime=8 if th else 6, alpha=["dwr"], maxconn=2, prefix=two_ready_prefix()),
             dict(cfg="W2", depth=11 if th else 10, maxtime=6, alpha=["dwr2"], maxconn=2, prefix=two_ready_prefix()),
